@@ -386,10 +386,15 @@ func GoTag(tag string, f func()) {
 			defer func() {
 				if r := recover(); r != nil {
 					passMu.Lock()
+					msg := fmt.Sprintf("background goroutine (%s): %v | %s", tag, r, trimStack(debug.Stack()))
 					if passPanic == "" {
-						passPanic = fmt.Sprintf("background goroutine (%s): %v | %s", tag, r, trimStack(debug.Stack()))
+						passPanic = msg
 					}
+					hook := OnPassPanic
 					passMu.Unlock()
+					if hook != nil {
+						hook(msg)
+					}
 				}
 			}()
 			f()
@@ -417,6 +422,10 @@ var live sync.WaitGroup
 var (
 	passMu    sync.Mutex
 	passPanic string
+	// OnPassPanic, if set, is called when a background goroutine panics in pass-through
+	// mode (in the real program that ends the process; here the goroutine's WaitGroup
+	// partner would wait forever).
+	OnPassPanic func(msg string)
 )
 
 // TakePanic returns (and clears) the first panic of a background goroutine in
